@@ -387,7 +387,7 @@ fn main() {
     sum.rule = "three generators on the main thread with fastrand seeded per case: (1) WeightedSampler::sample_nodes on 0..60 candidates, k in {0,1,n-1,n,n+1,0..20}, weights incl. 0, -0, negative, +-inf, NaN, subnormal, duplicate ids, forced NaN weights at 21..60 candidates; (2) DiversityEnforcer::validate_selection / calculate_diversity_factor on 0..9 nodes with pairs at 0 / 49.999 / 50 / 50.001 / 99.999 / 100 / 100.001 km, antipodes, poles, 1-4 regions, 1-3 ASNs; (3) WeightedPlacementStrategy::select_nodes and PlacementEngine::select_nodes on 0..60 candidates, k 0..=20 (+ n, n+1), optimisation exponents incl. 0, negative, huge, +-inf, NaN, subnormal, missing metadata, spread / random / clustered geography. Non-trivial = a selection of >= 2 nodes was returned or >= 2 nodes were validated; distinct = different generated input".into();
     let geo = Geo::new();
     let thorough = args.thorough();
-    let (ns, nd, np) = if thorough { (5000u64, 5000u64, 4000u64) } else { (300, 300, 260) };
+    let (ns, nd, np) = if thorough { (3000u64, 3000u64, 2500u64) } else { (300, 300, 260) };
     let mut id = 0u64;
     {
         let mut w = CaseWriter::new(&args.out, "cases_c17s", HEADER, "scase", "check_scase", "prop_scase", 50);
